@@ -1224,7 +1224,7 @@ def fault_key(tr, op, f: Fault, out: Outcome, what: str, sess=None) -> str:
     return f"mboot-{tr}-{f.kind}-{em}-{op['op']}-success-with-wrong-result"
 
 
-def _responses_name_their_command(events) -> bool:
+def _responses_name_their_command(events, aux_query_allowed=False) -> bool:
     """HID transcript of one call: does the response taken for the answer to each command name that command (if generic)?"""
     last, first = None, False
     for ev in events:
@@ -1232,8 +1232,10 @@ def _responses_name_their_command(events) -> bool:
             last, first = ev[1][4], True
         elif ev[0] == "r" and len(ev[2]) >= 16 and ev[2][0] == 3:
             pay = ev[2][4:]
-            if first and pay[0] == 0xA0 and pay[8] != last:
-                return False  # a generic response carries the tag of the command it answers: the host can tell (repaired)
+            if first and pay[0] == 0xA0 and pay[8] != last and not (aux_query_allowed and last == MD.C_GET_PROPERTY):
+                # a generic response carries the tag of the command it answers: the host can tell (repaired).  The packet-size
+                # query McuBoot makes on its own is exempt: there the host does tell, and goes on with the default size by design
+                return False
             # a typed response (GetProperty, ReadMemory, ...) carries no command tag; generic responses that arrive later, inside
             # the data phase, are matched by their command tag by the host itself (it skips those of other commands)
             first = False
@@ -1267,7 +1269,7 @@ def _judge_after_fault(ctx, sess, tr, op, out, j0, loose0, peek, f, detail, inde
         why = [m for m, _ in viol][:3]
         key = f"mboot-{tr}-call-after-{f.kind}-{em}-{op['op']}-success-with-wrong-result"
         if pending[0] and all(m.endswith("-reported-as-success") or "-differ" in m for m in why) and cls != "command-mismatch" \
-                and _responses_name_their_command(sess.link.events[pending[1]:]):
+                and _responses_name_their_command(sess.link.events[pending[1]:], aux_query_allowed=op["op"] not in ("get_property", "get_property_ext")):
             # reports were waiting unread when the call began, so every command of the call got the answer to an earlier one;
             # each generic one among them names the very command that was sent (anything else is refused since the repair),
             # the typed ones name no command at all
